@@ -122,7 +122,11 @@ def loops_cover_all_pairs(loops: List[ast.For], params: List[str], fn: Optional[
                 else:
                     return f"product argument {norm(a)} is not an operand list"
         else:
-            return f"loop iterates {norm(it)}, not the whole operand list"
+            # recognised partial iterations: a slice / a single element of an operand, operands zipped pairwise
+            partial = (isinstance(it, ast.Subscript) and _whole_operand(it.value, params, fn) is not None) or \
+                (isinstance(it, ast.Call) and norm(it.func) in ("zip", "itertools.zip_longest", "zip_longest", "islice", "itertools.islice")
+                 and any(_whole_operand(a, params, fn) is not None for a in it.args))
+            return ("" if partial else "?") + f"loop iterates {norm(it)}, not the whole operand list"
     missing = [p for p in params if p not in covered]
     if missing:
         return f"operand list(s) {missing} are not iterated"
@@ -144,7 +148,10 @@ def connect_rules(repo: Repo, rep, P: str, proj, fn: ast.FunctionDef):
         rep.inconclusive(f"{P}.R1", construct, "", "no loop over the operand lists found", f"{rel}:{fn.lineno}")
         return
     why = loops_cover_all_pairs(loops, params, fn)
-    if why:
+    if why and why.startswith("?"):
+        rep.inconclusive(f"{P}.R1", construct, "; ".join(f"for {norm(l.target)} in {norm(l.iter)}" for l in loops),
+                         f"what the loop iterates is not read: {why[1:]}", f"{rel}:{loops[0].lineno}")
+    elif why:
         rep.violation(f"{P}.R1", construct, "; ".join(f"for {norm(l.target)} in {norm(l.iter)}" for l in loops),
                       f"not every (from, to) pair is visited: {why}", f"{rel}:{loops[0].lineno}")
     else:
@@ -206,6 +213,7 @@ def connect_rules(repo: Repo, rep, P: str, proj, fn: ast.FunctionDef):
     if paths is None:
         rep.inconclusive(f"{P}.R2", pconstruct, "", "too many paths through one pair iteration", f"{rel}:{inner.lineno}")
         return
+    paths = [p_ for p_ in paths if g.feasible(p_)]         # e.g. `slot = None` in a handler, then `if slot is not None` taken
     rep.count("pair_iteration_paths", len(paths), 4)
     n_mut_paths = 0
     seen_shapes = set()
@@ -656,6 +664,10 @@ def _unwrap_rule(rep, P, construct, rel, fn):
         rep.inconclusive(f"{P}.R5", construct, f"if {norm(unlink_if.test)}",
                          "both operands are tested for the ~ marker, but how the marker is unwrapped (no `.orig` access) is not recognised",
                          f"{rel}:{unlink_if.lineno}")
+    elif not (tested & need) and not (unwrapped & need):
+        # neither the test nor the unwrapping is visible on either operand: it happens somewhere this rule does not read
+        rep.inconclusive(f"{P}.R5", construct, f"if {norm(unlink_if.test)}",
+                         "where the ~ marker of the operands is tested and unwrapped is not recognised", f"{rel}:{unlink_if.lineno}")
     else:
         rep.violation(f"{P}.R5", construct, f"if {norm(unlink_if.test)}",
                       f"the ~ marker is unwrapped for operands {sorted(need - set(missing_u))} and tested for {sorted(need - set(missing_t))} only "
